@@ -48,6 +48,8 @@ TARGETS = [
     ("has_frozen_base_class", "_make.py", ["_has_frozen_base_class"], False),
     ("default_init_alias_for", "_make.py", ["_default_init_alias_for"], False),
     ("to_bool", "converters.py", ["to_bool"], False),
+    ("frozen_setattrs", "_make.py", ["_frozen_setattrs"], True),
+    ("frozen_delattrs", "_make.py", ["_frozen_delattrs"], True),
     ("attrs_wrap", "_make.py", ["attrs", "wrap"], True),
     ("define_wrap", "_next_gen.py", ["define", "wrap"], True),
 ]
@@ -315,9 +317,9 @@ class Tr:
             exc = s.exc
             name = exc.func.id if isinstance(exc, ast.Call) and isinstance(exc.func, ast.Name) else (
                 exc.id if isinstance(exc, ast.Name) else None)
-            kind = {"ValueError": "PyErr.valueError", "TypeError": "PyErr.typeError"}.get(name)
-            if kind is None:
+            if name is None:
                 raise Unsupported(f"raise of {ast.dump(exc)[:60]}")
+            kind = {"ValueError": "PyErr.valueError", "TypeError": "PyErr.typeError"}.get(name, f"(PyErr.other {lstr(name)})")
             return pad + f"throw {kind}"
         if isinstance(s, ast.Assign):
             if len(s.targets) != 1:
@@ -349,6 +351,13 @@ class Tr:
             if self.effect and self.is_builder_call(s.value):
                 binds, ts = self.eff_args(s.value, scope)
                 line = f"let effs := effs ++ [Eff.mk {lstr(s.value.func.attr)} [{', '.join(ts)}]]"
+                return self.emit(binds, line, ind) + "\n" + self.blk(rest, scope, ind, ft)
+            v = s.value
+            if (self.effect and isinstance(v, ast.Call) and isinstance(v.func, ast.Attribute)
+                    and isinstance(v.func.value, ast.Name) and v.func.value.id not in scope):
+                # a call made for its effect on a global's attribute, e.g. `BaseException.__setattr__(self, name, value)`
+                binds, ts = self.eff_args(v, scope)
+                line = f"let effs := effs ++ [Eff.mk {lstr(v.func.value.id + '.' + v.func.attr)} [{', '.join(ts)}]]"
                 return self.emit(binds, line, ind) + "\n" + self.blk(rest, scope, ind, ft)
             raise Unsupported("expression statement")
         if isinstance(s, ast.If):
